@@ -177,7 +177,8 @@ def generate(rng, tier):
         sel = rng.sample([p["name"] for p in pk], rng.range(1, min(2, len(pk))))
     elif sel_kind == "unknown":
         sel = ["nosuchpkg"] + ([pk[0]["name"]] if rng.chance(50) else [])
-    cwds = ["ws"] + [p["dir"] for p in pk] + ([ext[0]["dir"]] if ext else [])
+    files["ws/docs/readme.txt"] = "a directory of the workspace that belongs to no package\n"
+    cwds = ["ws"] + [p["dir"] for p in pk] + ([ext[0]["dir"]] if ext else []) + (["ws/docs"] if not single else [])
     cwd = rng.choice(cwds)
     subdir = False
     if rng.chance(12):
@@ -207,7 +208,12 @@ def generate(rng, tier):
         check = False
     fault = rng.choice(["none"] * 4 + ["status", "status", "signal", "signal", "spawn-enoent", "spawn-eacces", "cargo-fails",
                         "realpath-errno", "realpath-errno"])
+    info_argv, info_fault = None, None
+    if rng.chance(4):
+        info_argv = rng.choice([["--version"], ["--", "--version"], ["--", "--help"], ["--", "-V"], ["--", "--print-config", "default"]])
+        info_fault = rng.choice(["none", "status", "signal", "signal"])
     return {
+        "info_argv": info_argv, "info_fault": info_fault,
         "world": {"files": files}, "packages": [p["name"] for p in pk], "ext": [p["name"] for p in ext],
         "virtual": virtual, "single": single, "sel_kind": sel_kind, "sel": sel, "cwd": cwd, "subdir": subdir,
         "manifest": manifest, "mspell": mspell, "check": check, "msgfmt": msgfmt, "after": after, "fault": fault,
@@ -239,7 +245,39 @@ def reference_metadata(sc, cwd, manifest, nodeps=False):
     return json.loads(r.stdout), ""
 
 
+def _lane_info(case):
+    """`cargo fmt --version`, `cargo fmt -- --help` ...: nothing is formatted, one rustfmt is run for its answer; its
+    failure is cargo fmt's failure"""
+    v = Verdict()
+    with core.Scratch() as sc:
+        world = copy.deepcopy(case["world"])
+        world["files"]["home/.keep"] = ""
+        sc.fresh_world(world)
+        stubplan = {"none": [], "status": ["0 exit 3"], "signal": ["0 signal 9"]}[case["info_fault"]]
+        env = cargo_env(sc)
+        env["RUSTFMT"] = core.STUB
+        inv = {"tool": "cargo-fmt", "argv": list(case["info_argv"]), "cwd": case["cwd"], "env": env, "hashseed": case["hashseed"],
+               "stubplan": stubplan}
+        res = core.run_inv(sc, inv)
+        v.account(res)
+        det = "argv=%s cwd=%s child=%s status=%s" % (inv["argv"], case["cwd"], case["info_fault"], res.status())
+        ab = core.abnormal(res)
+        if ab and not ab.startswith("exit:"):
+            v.add("C18:abnormal|%s" % ab, det)
+        elif not res.stubcalls:
+            v.add("C18:info-no-child", det)
+        elif case["info_fault"] != "none" and res.exit == 0:
+            v.add("C18:exit-0-despite-failing-child|info-%s" % case["info_fault"], det)
+        elif case["info_fault"] == "none" and res.exit != 0:
+            v.add("C18:nonzero-exit-although-child-succeeded|info", det)
+        v.probe("info-invocation")
+        v.sample = {"lane": "info", "argv": inv["argv"], "status": res.status()}
+    return v
+
+
 def execute(case):
+    if case.get("info_argv"):
+        return _lane_info(case)
     v = Verdict()
     with core.Scratch() as sc:
         world = copy.deepcopy(case["world"])
@@ -322,6 +360,14 @@ def execute(case):
                     acc.append(tmap([cur]))
                 if at_ws_root and not manifest:
                     acc.append(tmap(mem_pk))
+                if not manifest and cur is None and not at_ws_root:
+                    # a directory below a virtual workspace root that belongs to no member: the nearest manifest is
+                    # the workspace's, as from the workspace root
+                    d2 = os.path.realpath(os.path.dirname(base))
+                    while d2.startswith(os.path.realpath(sc.root)) and not os.path.isfile(os.path.join(d2, "Cargo.toml")):
+                        d2 = os.path.dirname(d2)
+                    if d2 == ws_root:
+                        acc.append(tmap(mem_pk))
                 if at_ws_root and manifest and cur is None:
                     # the manifest of a virtual workspace named explicitly: the same selection as from its directory
                     acc.append(tmap(mem_pk))
